@@ -78,7 +78,7 @@ def _norm(n):
 
 
 def one(ctx, i, tmproot):
-    rng = ctx.rng
+    rng = ctx.case_rng(i)
     root = tempfile.mkdtemp(prefix="s", dir=tmproot)
     try:
         truth = KINDS[i % 3]
@@ -90,7 +90,7 @@ def one(ctx, i, tmproot):
         before_src = {k: (open(f).read() if os.path.exists(f) else None) for k, f in p.files.items()}
         base = {"op": OP, "truth": truth, "method": method, "via": via, "pre_states": sorted(set(pre.values())),
                 "truth_func_before": p.features.get(truth + "_func_before", False)}
-        replay = {"i": i, "pre": pre, "files": before_src}
+        replay = {"case": i, "seed": ctx.seed, "tier": ctx.tier, "pre": pre, "files": before_src}
         res = run_api(p) if via == "api" else run_cli(p)
         ctx.event("sync_runs:" + via)
         raised = (via == "api" and res["exc"] is not None) or (via == "cli" and res["rc"] != 0)
@@ -102,12 +102,14 @@ def one(ctx, i, tmproot):
             tb = dict(base, file_kind=kind, file_pre=p.pre[kind], file_is_truth=kind == truth,
                       file_func_before=p.features.get(kind + "_func_before", False),
                       file_is_method=p.method and kind == "function",
-                      no_trailing_newline=p.features.get(kind + "_no_trailing_newline", False), run_raised=raised)
+                      no_trailing_newline=p.features.get(kind + "_no_trailing_newline", False),
+                      file_ending=p.features.get(kind + "_ending"), run_raised=raised)
             b_tree = ast.parse(before_src[kind])
             b_top, b_sib, b_doc = others(b_tree, p.names[kind], DEF_NAME[kind])
             ctx.case((truth, tuple(sorted(pre.items())), method, kind, tuple(type(s).__name__ for s in b_top)), nontrivial=bool(b_top or b_sib),
                      sample={"file": os.path.basename(fn), "pre": p.pre[kind], "before": before_src[kind][:500]}, sample_key=(kind, p.pre[kind]))
             ctx.feature("file_pre=" + p.pre[kind])
+            ctx.feature("file_ending=" + str(p.features.get(kind + "_ending")))
             after_src = open(fn).read()
             try:
                 a_tree = ast.parse(after_src)
@@ -153,6 +155,11 @@ def run(ctx):
 def replay(payload):
     from ..runner import Ctx
 
-    ctx = Ctx(PROPERTY, "quick", 0)
-    ctx.case(("replay",))
+    rp = payload["replay"]
+    ctx = Ctx(PROPERTY, rp.get("tier", "quick"), rp.get("seed", 0))
+    tmproot = tempfile.mkdtemp(prefix="dtverif-c11-")
+    try:
+        one(ctx, rp["case"], tmproot)
+    finally:
+        shutil.rmtree(tmproot, ignore_errors=True)
     return ctx
